@@ -155,6 +155,27 @@ def py_repr(t: Any) -> str:
     return "<?>"
 
 
+def flat_args(t: R) -> V:
+    """`__args__` of a typing generic: Callable[[A, B], R] keeps (A, B, R) - the parameter list is flattened"""
+    a = t.fields["args"]
+    if t.fields["origin"] == K("Callable") and isinstance(a, K) and len(a.v) == 2 and isinstance(a.v[0], K) and isinstance(a.v[0].v, tuple):
+        return K(tuple(a.v[0].v) + (a.v[1],))
+    return a
+
+
+def typing_get_args(t: Any) -> V:
+    """typing.get_args: `__args__` of a subscripted generic - with the parameters of a Callable put back into a list -, the members
+    of an `X | Y`, and () for everything else (a bare alias such as typing.List or typing.Callable, a class, Any)"""
+    if isinstance(t, R) and t.kind == "generic":
+        a = t.fields["args"]
+        if t.fields["origin"] == K("Callable") and isinstance(a, K) and len(a.v) == 2 and isinstance(a.v[0], K) and isinstance(a.v[0].v, tuple):
+            return K((R("list", items=tuple(a.v[0].v)), a.v[1]))
+        return a if isinstance(a, K) else K(())
+    if isinstance(t, R) and t.kind == "uniontype":
+        return t.fields["__args__"]
+    return K(())
+
+
 class CodecScenario:
     def __init__(self, repo: Repo, module: str, func_name: str, world: Optional[World] = None, inline_all: bool = True) -> None:
         self.repo = repo
@@ -201,7 +222,7 @@ class CodecScenario:
     def on_attr(self, obj: V, attr: str, node: ast.AST, st: State) -> Optional[V]:
         if isinstance(obj, R) and obj.kind == "generic":
             if attr == "__args__":
-                return obj.fields["args"]
+                return flat_args(obj)
             if attr in ("__qualname__", "__name__"):
                 st.pending = st.pending or "AttributeError"
                 return U("generic alias has no " + attr)
@@ -247,6 +268,8 @@ class CodecScenario:
         d = fname or ""
         meth = call.func.attr if isinstance(call.func, ast.Attribute) else None
         # ---- platform --------------------------------------------------------------
+        if len(args) == 1 and not kwargs and (d == "typing.get_args" or (d == "get_args" and self.ri.cur_fi.module.imports.get("get_args") == "typing.get_args")):
+            return typing_get_args(st.freeze(args[0]))
         if d in ("importlib.import_module",) and args and isinstance(args[0], K):
             name = args[0].v
             broken = getattr(self.world, "import_errors", ())
